@@ -100,6 +100,10 @@ func newKeyed(outcome func(key string, run int) int, delay bool, retry bool) *ke
 	if retry {
 		opts = append(opts, keyed.WithBackoff[string, int](func(k string) cbackoff.BackOff { return &kbo{key: k} }))
 	}
+	// every Keyed under test has an exit callback (it runs after the lock is dropped)
+	opts = append(opts, keyed.WithExitCb[string, int](func(key string, _ keyed.Routine, data int, err error) {
+		vsched.Observe(oCb, 2, int64(keyIdx(key)), errCode(err)*100+int64(data))
+	}))
 	return keyed.NewKeyed(func(key string) (keyed.Routine, int) {
 		n := int(vsched.CtrAdd(kCtors, 1))
 		return func(ctx context.Context) error {
@@ -235,6 +239,39 @@ func init() {
 			k.ClearContext()
 			vsched.CtrSet(kRemovedA, 1)
 			vsched.Settle()
+		},
+	})
+
+	eng.Register(&eng.Scenario{
+		Name: "keyed-setkey-race", Props: []string{"C07"}, ObsNames: stdObs, MustFinish: true,
+		Doc:   "Keyed with a context: T1 = SetKey(a,true)  ||  T2 = SetKey(a,true) or SetKeyIfNotExists / SyncKeys([a]) (choice)  ||  T3 = RestartRoutine(a): key a is never executing twice; after RemoveKey(a) nothing of key a has a live context or starts again",
+		Quick: eng.Bounds{PB: 2}, Thorough: eng.Bounds{PB: 3},
+		Body: func() {
+			k := newKeyed(always(iUntilCancelled), false, false)
+			k.SetContext(bg, false)
+			how := vsched.Choose(2)
+			T("T1", func() { k.SetKey("a", true) })
+			T("T2", func() {
+				if how == 0 {
+					k.SetKey("a", true)
+				} else {
+					k.SyncKeys([]string{"a"}, true)
+				}
+			})
+			T("T3", func() { k.RestartRoutine("a") })
+			vsched.Settle()
+			if l := liveKeyed(0); l != 1 {
+				fail("C07.two-live", "%d instances of key a with a live context at quiescence, want exactly 1", l)
+			}
+			k.RemoveKey("a")
+			vsched.CtrSet(kRemovedA, 1)
+			if l := liveKeyed(0); l != 0 {
+				fail("C07.not-cancelled", "key a removed but %d instance(s) still have a live context when RemoveKey returns", l)
+			}
+			vsched.Settle()
+			if vsched.Ctr(kActiveA) != 0 {
+				fail("C07.not-cancelled", "an instance of key a is still executing at quiescence after RemoveKey")
+			}
 		},
 	})
 
